@@ -5,10 +5,16 @@
    Proved: for the documented cells of the matrix (DESIGN.md Appendix A) Marshal followed by Unmarshal into a zero
    value of the same Go type returns the value in the target's canonical form; a zero-valued struct field without
    keepzero leaves the message untouched; Unmarshal leaves a struct field untouched when its message field is absent.
-   The plain []byte target is refuted (finding F14). Nested structs to depth 3, all tag styles and the round trip via
-   Pack/Unpack are covered by correspondence over the whole matrix and by the oracle (partial: no theorem yet for
-   whole structs). *)
-From Iso Require Import Model.Base Model.Spec Model.Field Model.Message Model.Marshal Proofs.BaseLemmas Proofs.MarshalProofs.
+   The plain []byte target is refuted (finding F14). Whole structs: for every struct whose indexed fields are bound
+   (by index / iso8583 tag or F<n> name, pairwise distinct ids) to the MTI or to primitive data elements and hold either
+   a zero value without keepzero or a documented non-zero cell (the inductive cell), Message.Marshal succeeds and
+   Message.Unmarshal into a zero value of the same struct type returns every non-zero field unchanged and leaves every
+   other field zero (C11_struct_roundtrip); the same holds when the marshalled message is packed and the bytes are
+   unpacked into another message object first (C11_struct_wire_roundtrip: any coherent spec, any in-domain result of
+   Marshal, anything after the packed bytes). Nested structs (composites) to depth 3 and keepzero are covered by
+   correspondence over the whole matrix and by the oracle (partial). *)
+From Iso Require Import Model.Base Model.Padding Model.Encoding Model.Prefix Model.Bitmap Model.Spec Model.Field Model.Message Model.Marshal Proofs.BaseLemmas Proofs.MarshalProofs Proofs.MessageRoundtrip Proofs.MarshalStruct.
+From Coq Require Import Lia.
 
 Theorem C11_roundtrip_string :
   (forall s, prim_marshal KString TStr (VStr s) = Ok (SString s) /\ prim_unmarshal (SString s) TStr (VStr []) = Ok (VStr s)) /\
@@ -73,3 +79,59 @@ Print Assumptions C11_absent_untouched.
 Example C11_ex_tag : index_tag_of (GDecl [x32; x2c; x6b; x65; x65; x70; x7a; x65; x72; x6f] [x39] [x58]) = {| it_id := 2; it_tag := [x32]; it_keepzero := true |} /\
                      index_tag_of (GDecl [] [] [x46; x34; x38]) = {| it_id := 48; it_tag := [x34; x38]; it_keepzero := false |}.
 Proof. split; vm_compute; reflexivity. Qed.
+
+(* every documented non-zero cell: Marshal gives the field state, Unmarshal of that state into any current value of
+   the same Go type gives the value back *)
+Theorem C11_cell_roundtrip : forall k t v st, cell k t v st ->
+  documented k t = true /\ g_is_zero v = false /\ prim_marshal k t v = Ok st /\ forall cur, prim_unmarshal st t cur = Ok v.
+Proof. exact cell_roundtrip. Qed.
+Print Assumptions C11_cell_roundtrip.
+
+(* whole structs over the MTI and primitive data elements *)
+Theorem C11_struct_roundtrip : forall S m fields vals, length vals = length fields ->
+  let l := zip_decls fields vals in
+  Forall (row_ok S) l -> has_states S m -> NoDup (map rid (filter indexed l)) ->
+  (forall r, In r l -> 0 <= rid r -> zmem (rid r) (m_present m) = false) ->
+  exists m', m_marshal S m (TPtr (TStruct fields)) (VPtr (Some (VStruct vals))) = (m', Ok tt) /\
+    m_unmarshal S m' (TPtr (TStruct fields)) (VPtr (Some (VStruct (map (fun df => g_zero (snd df)) fields)))) = Ok (VPtr (Some (VStruct (map expected l)))).
+Proof. exact struct_roundtrip. Qed.
+Print Assumptions C11_struct_roundtrip.
+
+(* ... and via Pack and Unpack into another message *)
+Theorem C11_struct_wire_roundtrip : forall S m fields vals, length vals = length fields ->
+  let l := zip_decls fields vals in
+  Forall (row_ok S) l -> has_states S m -> NoDup (map rid (filter indexed l)) ->
+  (forall r, In r l -> 0 <= rid r -> zmem (rid r) (m_present m) = false) ->
+  msg_coherent S ->
+  exists m', m_marshal S m (TPtr (TStruct fields)) (VPtr (Some (VStruct vals))) = (m', Ok tt) /\
+    forall mp b, msg_in_dom S m' -> m_pack S m' = (mp, Ok b) -> forall m0 rest, msg_shaped S m0 ->
+      exists m2, m_unpack S m0 (b ++ rest) = (m2, UOk (zlen b)) /\
+        m_unmarshal S m2 (TPtr (TStruct fields)) (VPtr (Some (VStruct (map (fun df => g_zero (snd df)) fields)))) = Ok (VPtr (Some (VStruct (map expected l)))).
+Proof. exact struct_wire_roundtrip. Qed.
+Print Assumptions C11_struct_wire_roundtrip.
+
+(* an instance: struct { F0 string; F2 *string `iso8583:"2"`; Amount int64 `index:"3"`; Note string (no index); F4 string (zero) } *)
+Definition s11 : mspec :=
+  {| ms_mti := {| ps_kind := KString; ps_enc := EncASCII; ps_pref := PFixed PfASCII; ps_len := 4; ps_pad := PadNone; ps_packer := PkDefault |};
+     ms_bm := {| bm_len := 8; bm_auto := true; bm_enc := EncBinary; bm_pref := PFixed PfBinary |};
+     ms_fields := [(2, FPrim {| ps_kind := KString; ps_enc := EncASCII; ps_pref := PVar PfASCII 2; ps_len := 19; ps_pad := PadNone; ps_packer := PkDefault |});
+                   (3, FPrim {| ps_kind := KNumeric; ps_enc := EncASCII; ps_pref := PFixed PfASCII; ps_len := 6; ps_pad := PadLeft x30; ps_packer := PkDefault |});
+                   (4, FPrim {| ps_kind := KString; ps_enc := EncASCII; ps_pref := PFixed PfASCII; ps_len := 3; ps_pad := PadNone; ps_packer := PkDefault |})] |}.
+Definition f11 : list (gdecl * gty) :=
+  [(GDecl [] [] [x46; x30], TStr); (GDecl [] [x32] [x50; x41; x4e], TPtr TStr); (GDecl [x33] [] [x41], TInt64); (GDecl [] [] [x4e; x6f; x74; x65], TStr); (GDecl [] [] [x46; x34], TStr)].
+Definition v11 : list gval := [VStr [x30; x31; x30; x30]; VPtr (Some (VStr [x34; x32])); VInt64 77; VStr [x78]; VStr []].
+Example C11_ex_struct :
+  Forall (row_ok s11) (zip_decls f11 v11) /\ has_states s11 (mfresh s11) /\ NoDup (map rid (filter indexed (zip_decls f11 v11))) /\
+  map expected (zip_decls f11 v11) = [VStr [x30; x31; x30; x30]; VPtr (Some (VStr [x34; x32])); VInt64 77; VStr []; VStr []].
+Proof.
+  split; [|split; [|split; [|vm_compute; reflexivity]]].
+  - cbn [zip_decls f11 v11]. apply Forall_cons; [|apply Forall_cons; [|apply Forall_cons; [|apply Forall_cons; [|apply Forall_cons; [|apply Forall_nil]]]]].
+    + right. split; [vm_compute; discriminate|]. split; [vm_compute; discriminate|]. eexists. split; [reflexivity|]. right. eexists. apply c_s_str. discriminate.
+    + right. split; [vm_compute; discriminate|]. split; [vm_compute; discriminate|]. eexists. split; [reflexivity|]. right. eexists. apply c_s_pstr. discriminate.
+    + right. split; [vm_compute; discriminate|]. split; [vm_compute; discriminate|]. eexists. split; [reflexivity|]. right. eexists. apply c_n_int64. unfold max_int. lia.
+    + left. vm_compute. reflexivity.
+    + right. split; [vm_compute; discriminate|]. split; [vm_compute; discriminate|]. eexists. split; [reflexivity|]. left. split; reflexivity.
+  - intros id s H. cbn [s11 ms_fields zlookup] in H. cbn [mfresh s11 ms_fields map m_fields zlookup].
+    destruct (id =? 2); [eexists; reflexivity|]. destruct (id =? 3); [eexists; reflexivity|]. destruct (id =? 4); [eexists; reflexivity|discriminate].
+  - vm_compute. repeat constructor; cbn; intuition discriminate.
+Qed.
